@@ -25,20 +25,40 @@ def nontrivial(line):
     if k == "raw":
         return (k, f.get("a"), f.get("sm"), f.get("seq")) if f.get("sm") else None
     if k in ("bgnew", "bgcnt", "bgseq", "fnew"):
-        return (k, f.get("a"), f.get("v", f.get("c", f.get("m", f.get("seqs")))), f.get("unk"), f.get("multi"))
+        return (k, f.get("a"), f.get("v", f.get("c", f.get("m", f.get("seqs")))), f.get("unk"), f.get("multi"),
+                f.get("cols"), f.get("wrap"))
     return None
 
 
 def histogram(line):
     f = _fields(line)
     keys = ["kind=" + f.get("k", "?"), "alphabet=" + f.get("a", "?")]
+    if f.get("k") == "bgseq":
+        keys.append("bgseq-mode=" + {"0": "slice", "1": "from_sequences", "2": "striped"}.get(f.get("multi"), "?"))
     if f.get("k") == "pipe":
         keys.append("src=" + ("seqs" if "seqs" in f else "counts"))
+        if "seqs" in f:
+            ls = [0 if x == "-" else len(x) for x in f["seqs"].split("/")] if f["seqs"] else []
+            if len(set(ls)) > 1:
+                keys.append("ragged=" + ("empty-first" if ls[0] == 0 else
+                                         "later-longer" if max(ls[1:]) > ls[0] else "later-shorter"))
         keys.append("bg=" + f.get("bg", "?").split(":")[0])
         keys.append("bg2=" + f.get("bg2", "?").split(":")[0])
         keys.append("pseudo=" + ("scalar" if f.get("ps", "").startswith("s:") else "per-symbol"))
         b = f.get("base")
-        keys.append("base=" + {"1073741824": "2", "1092616192": "10", "1076754516": "e", "1080033280": "3.5"}.get(b, "other"))
+        names = {"1073741824": "2", "1092616192": "10", "1076754516": "e", "1080033280": "3.5",
+                 "1075838976": "2.5", "1093140480": "10.5", "1073741825": "2+ulp", "1073741823": "2-ulp",
+                 "1092616193": "10+ulp", "1092616191": "10-ulp", "1077936128": "3", "1082130432": "4",
+                 "1098907648": "16", "1056964608": "0.5", "1065353216": "1", "1036831949": "0.1"}
+        try:
+            import struct
+            v = struct.unpack("<f", struct.pack("<I", int(b)))[0]
+            cls = "other>1" if v > 1 and v < float("inf") else "other<=1-or-nonfinite"
+        except Exception:
+            cls = "other"
+        keys.append("base=" + names.get(b, cls))
+        if f.get("bg") == f.get("bg2"):
+            keys.append("rescale-to-same-background")
         if "xpos" in f:
             keys.append("out-of-range-positions")
     return keys
@@ -59,24 +79,32 @@ SPEC = dict(
     nontrivial=nontrivial,
     histogram=histogram,
     rule="DNA (2/3) and protein (1/3) cases. kind=pipe (62%): CountMatrix::from_sequences (0..30 sequences of "
-         "length 0..20, 1/8 with unequal lengths) or CountMatrix::new (arbitrary counts incl. > 2^24), to_freq with a "
-         "scalar or per-symbol pseudocount (a few NaN/inf/negative/denormal), to_weight / to_scoring / into_scoring "
-         "with background None / uniform() / Background::new (dyadic compositions with zero entries and wildcard "
-         "mass, the documented decimal example, invalid arrays) / from_counts, WeightMatrix::to_scoring and "
-         "to_scoring_with_base (2, 10, e, 3.5, random > 1), rescale to a second background, min_score / max_score "
-         "and score_position at every position (plus out-of-range positions) of a generated sequence striped with "
-         "4 or 32 columns; kind=raw: the same for arbitrary ScoringMatrix::new data (NaN => panic, +-inf, +-0); "
-         "kind=bgnew/bgcnt/bgseq/fnew: Background::new / from_counts / from_sequence(s) / FrequencyMatrix::new on "
-         "accepting and rejecting inputs (one-ulp perturbations, values around the 0.01 tolerance). All floats as u32 "
-         "bit patterns. PROPFAIL: extracted checkers (counts = occurrences / Err on unequal lengths; frequency within "
-         "1e-5 of (count+pseudo)/total and rows summing to 1; weight*background within 1e-6 of the frequency, 0 where the "
-         "background is 0; score within 1e-5 of log_base(weight) from the libm oracle, -inf where the background is 0; "
-         "one-step = two-step; rescaled weights; min_score <= window <= max_score for wildcard-free windows; invalid "
-         "backgrounds / frequency matrices rejected). DIFF: bit-exact comparison with the extracted binary32 model (through "
-         "the oracle table after the logarithm; the table is re-validated: log 0 = -inf, monotone, b^y = x within 1e-4). "
-         "Non-trivial: distinct non-empty inputs per kind.",
+         "length 0..20, 1/6 ragged in seven shapes: empty first, last longer/shorter by one, first longer, one later "
+         "sequence longer, an empty later sequence, random) or CountMatrix::new (arbitrary counts incl. > 2^24 and 2^32-1), "
+         "to_freq with a scalar or per-symbol pseudocount (wildcard entry non-zero; a few NaN/inf/negative/denormal), "
+         "to_weight / to_scoring / into_scoring with background None / uniform() / Background::new (dyadic compositions with "
+         "zero entries and wildcard mass, the documented decimal example, invalid arrays, a subnormal entry) / from_counts, "
+         "WeightMatrix::to_scoring and to_scoring_with_base (2, 10, e, 3.5; 2.5, 10.5, 2.999, 10.999, 2+-ulp, 10+-ulp, 1.5, 9.5; "
+         "3, 4, 16, 11, 20, 100; 0.5, 0.1, 1.0; random in (1.06, 61); NaN/inf/0/negative), rescale to a second background "
+         "(1/12: the same one), min_score / max_score and score_position at every position (plus out-of-range positions) of a "
+         "generated sequence striped with 4 or 32 columns; kind=raw: the same for arbitrary ScoringMatrix::new data (NaN => "
+         "panic, +-inf, +-0); kind=bgnew/bgcnt/bgseq/fnew: Background::new / from_counts / from_sequence (slice, and a "
+         "StripedSequence with padding cells and wrap rows) / from_sequences / FrequencyMatrix::new on accepting and "
+         "rejecting inputs (one-ulp perturbations, values around the 0.01 tolerance, wildcard-only sequences with and "
+         "without `unknown`). corpus/C09: 37 fixed lines (one per ragged shape, per special base, subnormal rescale, "
+         "striped backgrounds). All floats as u32 bit patterns. PROPFAIL: extracted checkers (counts = occurrences / Err on "
+         "unequal lengths; frequency within 1e-5 of (count+pseudo)/total and rows summing to 1; weight*background within 1e-6 "
+         "of the frequency, 0 where the background is 0; score within 1e-5 of log_base(weight) from the libm oracle, -inf "
+         "where the background is 0 (finite base > 1); one-step = two-step; rescaled weight * new background within "
+         "rescale_tol = 1e-5|f| + (|f|/old)*new*2^-149 + 2^-60 of the frequency (proved to dominate the binary32 error of the "
+         "three operations incl. gradual underflow: C09_rescale_model_passes_check); background from counts/sequences = "
+         "occurrences/total within 1e-6, Err iff total 0; min_score <= window <= max_score exactly for wildcard-free windows; "
+         "invalid backgrounds / frequency matrices rejected). DIFF: bit-exact comparison with the extracted binary32 model "
+         "(through the oracle table after the logarithm; the table is re-validated: log 0 = -inf, monotone, b^y = x within "
+         "1e-4). Non-trivial: distinct non-empty inputs per kind.",
     trusted_base=[
-        "Coq 8.16.1 kernel (coqc); Flocq 4.1.0 (binary32 semantics); vm_compute only in Example lemmas",
+        "Coq 8.16.1 kernel (coqc); Flocq 4.1.0 (binary32 semantics); vm_compute only in Example lemmas and on closed "
+        "powers of two; the binary32 theorems use the classical axioms of Coq's Reals (allow-listed)",
         "extraction: ExtrOcamlBasic only (nat, N, Z, positive, Q kept as extracted inductives); OCaml 4.13.1",
         "translator translate/pwm_complement.py (alphabet sizes, symbol order, default symbol from abc.rs)",
         "hand-written OCaml driver ocaml/pwm/driver.ml (parsing, oracle table and its validation with OCaml's "
@@ -90,12 +118,15 @@ SPEC = dict(
     assumptions=[
         "logarithms are Section variables flog2/flog10/fln; one_step_eq_two_step needs flog2 0.0 = -inf (re-validated on "
         "every run from the oracle table) and 2.0 == 2.0",
-        "value theorems (freq_cell, freq_rows_sum_to_one, weight_cell, rescale_spec, acceptance in exact arithmetic) are "
-        "over exact rationals Qc; the distance between the binary32 result and the exact value is not proved, it is "
-        "checked on the observations with the stated tolerances",
+        "value theorems freq_cell, freq_rows_sum_to_one, rescale_spec, acceptance-in-exact-arithmetic are over exact "
+        "rationals Qc; for weights and rescaled weights the distance between the binary32 result and the exact value IS "
+        "proved (C09_weight_f32_error, C09_rescale_f32_error: standard model with gradual underflow, hypotheses: finite "
+        "operands, background entries > 0, no overflow of x = f/old, q = old/new, w = x*q); for frequencies and scores it "
+        "is not proved but checked on the observations with the stated tolerances",
+        "C09_*_model_passes_check additionally assume background entries <= 1 (guaranteed by Background::new / from_counts)",
         "freq_cell / freq_rows_sum_to_one exclude rows whose total count+pseudocount is 0 (0/0 = NaN in the code)",
-        "window_between_min_max is proved for ordered commutative monoids (Qc and Qc + -inf) and, for binary32, under "
-        "the hypothesis that no NaN occurs (see the theorem list in notes/pwm.md)",
+        "window_between_min_max is proved for ordered commutative monoids (Qc and Qc + -inf) and, for binary32 "
+        "(C09_window_between_min_max_f32, Flocq), exactly, for the bounds whose two values are not NaN",
         "fewer than 2^32 sequences and counts whose sum fits in usize (no integer overflow in from_sequences / from_counts)",
         "rows of every matrix have exactly K cells, symbol indices are < K (guaranteed by the Rust types)",
     ],
